@@ -13,6 +13,7 @@ ID = "C13"
 LEVEL = "exploration"
 TECHNIQUE = ('deterministic simulation with a peer sending arbitrary headers: real writer header fidelity, 4x8 type lattice + table/version defects sent by the independent codec, strictness lattice of the four parsers')
 LEVEL_NOTE = ('stratified seeded sampling of small finite lattices; compatibility table from the specification')
+COMPILED_EVERY = 25       # every 25th run (offset 12) is executed in a child that imports a mypyc build of the tree
 RUNS = {"quick": 45000, "thorough": 900000}
 RULE = ("(fidelity) real writer with swarm-chosen options -> get_options_and_frames and the reference decoder must "
         "report exactly those options, version 2 iff namespace declarations; (pairs) all 4x8 physical/logical pairs, "
